@@ -1,1 +1,218 @@
-(* proofs *)
+(* Main refinement: the model of _training_loop equals the closed-form spec. *)
+From Coq Require Import ZArith List Bool Lia.
+Import ListNotations.
+From KD Require Import C04.Model C04.Spec C04.Lists C04.Arith C04.Sides.
+Open Scope Z_scope.
+
+Section Main.
+  Variables (c : cfg) (mi : Z -> list Z).
+  Hypothesis W : WF c mi.
+
+  (* one batch: b is consumed, the last index closes the update *)
+  Lemma epoch_loop_batch : forall b rest sie s sample' sie',
+    b <> [] -> 0 <= siu s -> siu s + len b <= cB c -> sie + len b <= spe c ->
+    (siu s + len b = cB c \/ sie + len b = spe c) ->
+    sample' = sample s + len b -> sie' = sie + len b ->
+    epoch_loop c (b ++ rest) sie s =
+      let epoch_end := sie' =? spe c in
+      let epoch' := if epoch_end then epoch s + 1 else epoch s in
+      let update' := update s + 1 in
+      let passes := sides_pass c 0 (offsets c) (sides c) epoch_end epoch' update' sample' (salu s) in
+      let s' := {| epoch := epoch'; update := update'; sample := sample'; siu := 0; salu := sample' |} in
+      if budget_reached c epoch' update' sample' then (emit Main b ++ passes, s', Done)
+      else if epoch_end then (emit Main b ++ passes, s', EpochBreak)
+      else let '(evs, s'', stt) := epoch_loop c rest sie' s' in (emit Main b ++ passes ++ evs, s'', stt).
+  Proof.
+    induction b as [|i b IH]; intros rest sie s sample' sie' Hne Hq Hle Hle2 Hclose Hs Hsie; [congruence|].
+    destruct b as [|j b].
+    - rewrite len_cons, len_nil in *.
+      assert (sample' = sample s + 1) as -> by lia. assert (sie' = sie + 1) as -> by lia.
+      cbn [app epoch_loop].
+      assert ((siu s + 1 =? cB c) || (sie + 1 =? spe c) = true) as ->.
+      { apply orb_true_iff. destruct Hclose; [left|right]; apply Z.eqb_eq; lia. }
+      cbv zeta. cbn [emit app].
+      destruct (budget_reached c _ _ _); [reflexivity|].
+      destruct (sie + 1 =? spe c); [reflexivity|].
+      destruct (epoch_loop c rest (sie + 1) _) as [[evs s''] stt]. reflexivity.
+    - rewrite len_cons in *. pose proof (len_nonneg (j :: b)) as Hnn.
+      change ((i :: j :: b) ++ rest) with (i :: ((j :: b) ++ rest)).
+      cbn [epoch_loop].
+      assert ((siu s + 1 =? cB c) || (sie + 1 =? spe c) = false) as ->.
+      { rewrite len_cons in *. pose proof (len_nonneg b).
+        apply orb_false_iff. split; apply Z.eqb_neq; lia. }
+      cbv zeta. rewrite (len_cons j b) in *.
+      rewrite (IH rest (sie + 1) _ sample' sie'); cbn [siu sample epoch update salu];
+        try lia; try discriminate.
+      cbv zeta. rewrite emit_cons2.
+      destruct (budget_reached c _ _ _); [reflexivity|].
+      destruct (sie' =? spe c); [reflexivity|].
+      destruct (epoch_loop c rest sie' _) as [[evs s''] stt]. reflexivity.
+  Qed.
+
+  Definition at_pos (s : st) (e : Z) (j : nat) (pre : list (list Z)) : Prop :=
+    epoch s = e /\ update s = e * upe c + Z.of_nat j /\ sample s = e * spe c + len (concat pre)
+    /\ siu s = 0 /\ salu s = sample s.
+
+  Definition is_nil {A} (l : list A) : bool := match l with [] => true | _ => false end.
+
+  Lemma counters_facts e pre x rem' :
+    let k := counters_at c e (pre ++ x :: rem') (length pre) in
+    k_update k = e * upe c + Z.of_nat (length pre) + 1 /\
+    k_sample k = e * spe c + len (concat pre) + len x /\
+    k_prev_sample k = e * spe c + len (concat pre) /\
+    k_epoch_end k = is_nil rem' /\
+    k_epoch k = (if is_nil rem' then e + 1 else e).
+  Proof.
+    cbv zeta. unfold counters_at. cbn [k_update k_sample k_prev_sample k_epoch_end k_epoch].
+    rewrite firstn_app_S, firstn_app_exact, concat_app, len_app. cbn [concat]. rewrite app_nil_r.
+    assert ((S (length pre) =? length (pre ++ x :: rem'))%nat = is_nil rem') as ->.
+    { rewrite app_length. simpl length. destruct rem'; cbn [is_nil length].
+      - apply Nat.eqb_eq. lia.
+      - apply Nat.eqb_neq. lia. }
+    repeat split; lia.
+  Qed.
+
+  Lemma shape_cons_inv b x rem' : (1 <= b)%nat -> shape b (x :: rem') ->
+    x <> [] /\ (length x <= b)%nat /\ (rem' <> [] -> length x = b) /\ shape b rem'.
+  Proof.
+    intros Hb H. destruct rem' as [|y r].
+    - destruct H as [H1 H2]. repeat split; auto. congruence.
+    - destruct H as [H1 H2]. repeat split; auto; try lia.
+      intro E. subst x. simpl in H1. lia.
+  Qed.
+
+  Lemma shape_app_r b pre rem : shape b (pre ++ rem) -> rem <> [] -> shape b rem.
+  Proof.
+    induction pre as [|p pre IH]; intros H Hne; [exact H|].
+    apply IH; auto. change ((p :: pre) ++ rem) with (p :: (pre ++ rem)) in H.
+    cbn [shape] in H. destruct (pre ++ rem) eqn:E.
+    - destruct pre; [simpl in E; congruence|discriminate].
+    - destruct H as [_ H]. exact H.
+  Qed.
+
+  Lemma shape_concat_pos b rem : (1 <= b)%nat -> shape b rem -> rem <> [] -> 1 <= len (concat rem).
+  Proof.
+    intros Hb H Hne. destruct rem as [|x r]; [congruence|].
+    apply shape_cons_inv in H; auto. destruct H as [Hx _].
+    cbn [concat]. rewrite len_app. pose proof (len_nonneg (concat r)).
+    destruct x; [congruence|]. rewrite len_cons. pose proof (len_nonneg x). lia.
+  Qed.
+
+  (* a whole epoch (from the j-th batch on) *)
+  Lemma epoch_loop_epoch e (bs : list (list Z)) :
+    shape (Z.to_nat (cB c)) bs -> len (concat bs) = spe c -> Z.of_nat (length bs) = upe c ->
+    forall rem pre tail s,
+    bs = pre ++ rem -> rem <> [] -> at_pos s e (length pre) pre ->
+    let r := take_until (hit c) (map (upd_at c e bs) (seq (length pre) (length rem))) in
+    exists sfin,
+      epoch_loop c (concat rem ++ tail) (len (concat pre)) s =
+        (flat_map u_events (fst r), sfin, if snd r then Done else EpochBreak)
+      /\ (snd r = false -> at_pos sfin (e + 1) 0 []).
+  Proof.
+    intros Hshape Hlen Hcount. pose proof (wf_B c mi W) as HB.
+    induction rem as [|x rem' IH]; intros pre tail s Hbs Hne Hpos; [congruence|].
+    clear Hne. cbv zeta.
+    destruct Hpos as (He & Hu & Hsa & Hsiu & Hsalu).
+    assert (Hsh : shape (Z.to_nat (cB c)) (x :: rem')).
+    { apply (shape_app_r _ pre); [now rewrite <- Hbs|discriminate]. }
+    apply shape_cons_inv in Hsh; [|lia]. destruct Hsh as (Hx & Hxle & Hxfull & Hsh').
+    assert (Htot : len (concat pre) + len x + len (concat rem') = spe c).
+    { rewrite <- Hlen, Hbs, concat_app. cbn [concat]. rewrite !len_app. lia. }
+    pose proof (len_nonneg (concat rem')) as Hnn.
+    assert (Hxpos : 1 <= len x) by (destruct x; [congruence|rewrite len_cons; pose proof (len_nonneg x); lia]).
+    assert (Hrem' : rem' <> [] -> 1 <= len (concat rem')) by (intro; apply (shape_concat_pos (Z.to_nat (cB c))); auto; lia).
+    pose proof (counters_facts e pre x rem') as Hk. cbv zeta in Hk. rewrite <- Hbs in Hk.
+    set (k := counters_at c e bs (length pre)) in *.
+    destruct Hk as (Hku & Hks & Hkp & Hke & Hkep).
+    cbn [concat]. rewrite <- app_assoc.
+    rewrite (epoch_loop_batch x (concat rem' ++ tail) (len (concat pre)) s (k_sample k)
+                              (len (concat pre) + len x)); try lia; auto.
+    2:{ rewrite Hsiu. unfold len in *. lia. }
+    2:{ rewrite Hsiu. destruct rem' as [|y r].
+        - right. cbn [concat] in Htot. rewrite len_nil in Htot. lia.
+        - left. unfold len. rewrite Hxfull by discriminate. lia. }
+    cbv zeta.
+    assert ((len (concat pre) + len x =? spe c) = k_epoch_end k) as ->.
+    { rewrite Hke. destruct rem' as [|y r]; cbn [is_nil].
+      - apply Z.eqb_eq. cbn [concat] in Htot. rewrite len_nil in Htot. lia.
+      - apply Z.eqb_neq. specialize (Hrem' ltac:(discriminate)). lia. }
+    assert ((if k_epoch_end k then epoch s + 1 else epoch s) = k_epoch k) as ->.
+    { rewrite Hke, Hkep, He. reflexivity. }
+    replace (update s + 1) with (k_update k) by lia.
+    replace (salu s) with (k_prev_sample k) by lia.
+    rewrite (sides_pass_spec c mi W k) by lia.
+    cbn [length seq map take_until].
+    assert (Hhit : hit c (upd_at c e bs (length pre)) = budget_reached c (k_epoch k) (k_update k) (k_sample k)) by reflexivity.
+    assert (Hev : u_events (upd_at c e bs (length pre)) = emit Main x ++ passes_from c 0 (sides c) k).
+    { unfold upd_at. cbn [u_events]. fold k. rewrite Hbs, nth_app_exact. reflexivity. }
+    rewrite Hhit.
+    destruct (budget_reached c (k_epoch k) (k_update k) (k_sample k)) eqn:Hb.
+    - eexists. cbn [fst snd flat_map]. rewrite Hev, app_nil_r. split; [reflexivity|discriminate].
+    - destruct rem' as [|y r].
+      + rewrite Hke. cbn [is_nil length seq map take_until fst snd flat_map].
+        eexists. rewrite Hev, app_nil_r. split; [reflexivity|]. intros _.
+        unfold at_pos. cbn [epoch update sample siu salu concat].
+        rewrite Hkep. cbn [is_nil]. rewrite len_nil.
+        assert (Z.of_nat (length bs) = Z.of_nat (length pre) + 1) as Hl.
+        { rewrite Hbs, app_length. simpl length. lia. }
+        cbn [concat] in Htot. rewrite len_nil in Htot.
+        repeat split; try lia; nia.
+      + rewrite Hke. cbn [is_nil].
+        specialize (IH (pre ++ [x]) tail
+                       {| epoch := k_epoch k; update := k_update k; sample := k_sample k; siu := 0; salu := k_sample k |}).
+        rewrite app_length in IH. simpl length in IH. rewrite Nat.add_1_r in IH.
+        rewrite concat_app in IH. cbn [concat] in IH. rewrite app_nil_r, len_app in IH.
+        destruct IH as [sfin [Heq Hfin]].
+        * rewrite <- app_assoc. exact Hbs.
+        * discriminate.
+        * unfold at_pos. cbn [epoch update sample siu salu]. rewrite Hkep. cbn [is_nil].
+          rewrite concat_app, len_app. cbn [concat]. rewrite app_nil_r.
+          repeat split; lia.
+        * cbv zeta in Heq, Hfin. cbn [concat]. rewrite Heq.
+          cbn [length] in *.
+          destruct (take_until (hit c) (map (upd_at c e bs) (seq (S (length pre)) (S (length r))))) as [us found].
+          cbn [fst snd] in *. exists sfin. cbn [flat_map]. rewrite Hev, <- app_assoc.
+          split; [reflexivity|exact Hfin].
+  Qed.
+
+  Lemma epoch_step e s : at_pos s e 0 [] ->
+    exists sfin,
+      epoch_loop c (mi e) 0 s =
+        (flat_map u_events (fst (take_until (hit c) (epoch_updates c mi e))), sfin,
+         if epoch_hits c mi e then Done else EpochBreak)
+      /\ (epoch_hits c mi e = false -> at_pos sfin (e + 1) 0 []).
+  Proof.
+    intros Hpos. set (bs := epoch_batches c mi e).
+    pose proof (epoch_batches_shape c mi W e) as Hsh.
+    pose proof (epoch_batches_len c mi W e) as Hlen.
+    pose proof (epoch_batches_count c mi W e) as Hcnt.
+    pose proof (spe_range c mi W) as Hspe.
+    assert (bs <> []) as Hne.
+    { intro E. fold bs in Hlen. rewrite E in Hlen. cbn in Hlen. lia. }
+    destruct (epoch_loop_epoch e bs Hsh Hlen Hcnt bs [] (skipn (Z.to_nat (spe c)) (mi e)) s eq_refl Hne Hpos)
+      as [sfin [Heq Hfin]].
+    cbv zeta in Heq, Hfin. cbn [concat length] in Heq, Hfin. rewrite len_nil in Heq.
+    exists sfin. unfold epoch_hits, epoch_updates. fold bs.
+    rewrite (epoch_split c mi W e) at 1. fold bs. split; [exact Heq|exact Hfin].
+  Qed.
+
+  (* the model equals the spec from every epoch boundary, for every fuel *)
+  Lemma run_eq_spec : forall n e s, at_pos s e 0 [] -> run c mi n s = spec_run c mi e n.
+  Proof.
+    induction n as [|n IH]; intros e s Hpos; [reflexivity|].
+    cbn [run spec_run].
+    assert (epoch s = e) as He by (destruct Hpos; auto). rewrite He.
+    destruct (epoch_step e s Hpos) as [sfin [Heq Hfin]]. rewrite Heq.
+    unfold epoch_events. destruct (epoch_hits c mi e) eqn:Hh.
+    - reflexivity.
+    - rewrite (IH (e + 1) sfin (Hfin eq_refl)).
+      destruct (spec_run c mi (e + 1) n); reflexivity.
+  Qed.
+
+  Lemma at_pos_start e : at_pos (init_state e (upe c * e) (spe c * e)) e 0 [].
+  Proof. unfold at_pos, init_state. cbn. repeat split; lia. Qed.
+
+  Theorem model_eq_spec n e :
+    run c mi n (init_state e (upe c * e) (spe c * e)) = spec_run c mi e n.
+  Proof. apply run_eq_spec, at_pos_start. Qed.
+End Main.
